@@ -14,7 +14,7 @@ from common import parse_block, WORK
 import props_compute as pc
 
 
-def gen_prune_op(rng, case, allow_crits=True):
+def gen_prune_op(rng, case, allow_crits=True, acc=False):
     vals = sorted(set(x for x in case['k'] if x is not None))
     r = rng.random()
     if r < 0.25 or len(vals) < 2:
@@ -26,7 +26,8 @@ def gen_prune_op(rng, case, allow_crits=True):
         mind = rng.randint(1, 8)
     minn = rng.choice([0, 0, 1, 2, 3, 4, 5])
     crits = gen.gen_crits(rng, case['k'], len(case['k'])) if allow_crits and rng.random() < 0.3 else []
-    crits = [c for c in crits if c[0] in ('peak', 'sum', 'seeds')]
+    # `acc`: also user criteria that read accessors of the structure (get_npix(), get_peak()) while the prune loop runs
+    crits = [c for c in crits if c[0] in (('peak', 'sum', 'seeds', 'udelta', 'npixacc', 'peakacc') if acc else ('peak', 'sum', 'seeds', 'udelta'))]
     warmset = sorted(set(rng.choice(['level', 'desc', 'anc', 'npix', 'peak', 'newick', 'none', 'none'])
                          for _ in range(rng.randint(0, 3))))
     return ('prune', mind, minn, crits, warmset)
@@ -490,7 +491,7 @@ def gen_item_C14(rng, idx, tier):
         if r < 0.35:
             ops.append(('warm', sorted(set(rng.choice(['level', 'desc', 'anc', 'npix', 'peak', 'newick']) for _ in range(rng.randint(1, 3))))))
         elif r < 0.7:
-            ops.append(gen_prune_op(rng, case, allow_crits=False))
+            ops.append(gen_prune_op(rng, case, allow_crits=rng.random() < 0.3 and case['kind'] not in ('bigint', 'decimal', 'fullrange'), acc=True))
         elif r < 0.8:
             ops.append(('reload', rng.choice(['hdf5', 'fits'])))
         elif r < 0.87:
@@ -501,6 +502,10 @@ def gen_item_C14(rng, idx, tier):
             ops.append(('plotsub', [rng.randrange(1000) for _ in range(rng.randint(1, 2))], rng.random() < 0.5))
         else:
             ops.append(('plotter',))
+    if rng.random() < 0.15 and case['kind'] not in ('bigint', 'decimal', 'fullrange'):
+        # pixel counts read (and cached) on every structure, then a prune whose user criterion reads the count of the
+        # structure it is asked about -- also of branches that turn into leaves while the loop runs
+        ops = [('warm', ['npix'])] + ops[:2] + [('prune', 0, 0, [[rng.choice(['npixacc', 'npixget', 'npixget']), rng.randint(2, 9)]], [])] + ops[2:]
     if not any(o[0] == 'prune' for o in ops):
         ops.append(gen_prune_op(rng, case, allow_crits=False))
     if rng.random() < 0.5:
@@ -527,7 +532,7 @@ def eval_C14(item):
     # user criteria that read accessors fill the pixel caches of the leaves they examine: fill states are
     # then not comparable (soundness of whatever is cached still is)
     def _acc(cr):
-        return any(c[0] in ('npixacc', 'peakacc') for c in cr)
+        return any(c[0] in ('npixacc', 'peakacc', 'npixget') for c in cr)
     fill_state = not _acc(case.get('crits', [])) and not any(o[0] == 'prune' and _acc(o[3]) for o in item['ops'])
     if heap_ok:
         res['corr'] += cache_diff(d, drv.ask('cache init %s' % (','.join(str(k) for k in d._structures_dict.keys()) or '-')), 'after compute: ')[0]
